@@ -203,9 +203,12 @@ func (fr *Frame) invoke(ins ssa.Instruction, recv *Val, it types.Type, m *types.
 func (fr *Frame) callFunc(ins ssa.Instruction, fn *ssa.Function, args []*Val, binds []*Val) *Val {
 	vc := fr.vc
 	name := shortFuncName(fn.String())
-	if c := vc.w.contracts[name]; c != nil && !c.Inline && binds == nil && vc.specDepth == 0 {
-		vc.used[name] = true
-		return fr.applyContract(ins, fn, c, args)
+	if c := vc.w.contracts[name]; c != nil && binds == nil && vc.specDepth == 0 {
+		if !c.Inline && (vc.w.unroll == 0 || c.Trusted || fn.Blocks == nil) {
+			vc.used[name] = true
+			return fr.applyContract(ins, fn, c, args)
+		}
+		fr.checkRequires(fn, c, args)
 	}
 	if m := externModels[fn.String()]; m != nil {
 		vc.trusted[fn.String()] = true
@@ -386,15 +389,24 @@ func bindResults(scope map[string]*Val, res *Val) {
 	scope["result0"] = res
 }
 
-func (fr *Frame) applyContract(ins ssa.Instruction, fn *ssa.Function, c *Contract, args []*Val) *Val {
+func (fr *Frame) checkRequires(fn *ssa.Function, c *Contract, args []*Val) {
 	vc := fr.vc
 	name := shortFuncName(fn.String())
 	scope := fr.contractScope(fn, args)
-	old := fr.st.clone()
 	for i, r := range c.Requires {
-		t := fr.evalBool(r.Expr, scope, fr.st, old)
+		if !clauseActive(r.Tags, vc.w.prop) {
+			continue
+		}
+		t := fr.evalBool(r.Expr, scope, fr.st, fr.st)
 		vc.obligeNamed(fr, fmt.Sprintf("%s/call-pre/%s/%d", shortFuncName(fr.fn.String()), name, i), "call-pre", t, r.Tags, r.Src)
 	}
+}
+
+func (fr *Frame) applyContract(ins ssa.Instruction, fn *ssa.Function, c *Contract, args []*Val) *Val {
+	vc := fr.vc
+	scope := fr.contractScope(fn, args)
+	old := fr.st.clone()
+	fr.checkRequires(fn, c, args)
 	// effects
 	if !c.Pure {
 		nw := vc.fresh(fr.prefix+"_wm", "Int")
@@ -405,6 +417,9 @@ func (fr *Frame) applyContract(ins ssa.Instruction, fn *ssa.Function, c *Contrac
 	res := fr.havocResult(fn)
 	bindResults(scope, res)
 	for _, e := range c.Ensures {
+		if !clauseActive(e.Tags, vc.w.prop) {
+			continue
+		}
 		t := fr.evalBool(e.Expr, scope, fr.st, old)
 		vc.assume(imp(fr.reach, t))
 	}
@@ -417,6 +432,22 @@ func (fr *Frame) havocAssigns(assigns []Clause, scope map[string]*Val, old *Stat
 	vc := fr.vc
 	for _, a := range assigns {
 		n := a.Expr
+		if n.Kind == "ident" && n.Name == "$heap" {
+			var keys []string
+			for k := range leafByKey {
+				keys = append(keys, k)
+			}
+			sort.Strings(keys)
+			for _, k := range keys {
+				old := vc.arr(fr.st, leafByKey[k])
+				fr.st.heap[k] = vc.fresh(k, "(Array Int "+leafByKey[k].Sort+")")
+				vc.staticFrame(fr.st.heap[k], old)
+			}
+			for _, g := range []string{"$alloc"} {
+				fr.st.ghost[g] = vc.fresh("g_"+sanitize(g), "Int")
+			}
+			continue
+		}
 		if n.Kind == "ident" && len(n.Name) > 0 && n.Name[0] == '$' {
 			fr.st.ghost[n.Name] = vc.fresh("g_"+sanitize(n.Name), "Int")
 			continue
@@ -497,6 +528,9 @@ func (fr *Frame) checkEnsures(ins *ssa.Return, res *Val) {
 	bindResults(scope, res)
 	name := shortFuncName(fr.fn.String())
 	for i, e := range c.Ensures {
+		if !clauseActive(e.Tags, fr.vc.w.prop) {
+			continue
+		}
 		t := fr.evalBool(e.Expr, scope, fr.st, fr.entry)
 		label := e.Label
 		if label == "" {
